@@ -823,34 +823,38 @@ func ruleInvokeShape(c *Ctx, rule string) {
 	c.check(stripConv(r2.Call.Args[1]) != stripConv(r1.Call.Args[1]) && origin(r1.Call.Args[1]) == ssa.Value(inv.Params[4]), rule, w.Short(inv)+": second receive into a fresh message", w.At(r2), desc(r2.Call.Args[1]), "the second receive decodes into the caller's response (it could overwrite it) or the first does not decode into it")
 	// nil returned only under errors.Is(X, io.EOF) with X = phi(r2 err, Internal when r2 err == nil)
 	okNil, nNil := true, 0
-	forEachReturnValue(inv, 0, func(v ssa.Value, at ssa.Instruction) {
-		if !isNilConst(v) || !dominates(r2, at) {
-			return
-		}
-		nNil++
-		g := false
-		for _, f := range boolFactsAt(at) {
-			if call, ok := f.V.(*ssa.Call); ok && calleeName(call) == "errors.Is" && f.True && desc(call.Call.Args[1]) == "*global:EOF" {
-				// X
-				x := call.Call.Args[0]
-				if phi, ok := x.(*ssa.Phi); ok {
-					hasR2, hasInt := false, false
-					for _, e := range phi.Edges {
-						if e == ssa.Value(r2) {
-							hasR2 = true
-						}
-						if sc, ok := e.(*ssa.Call); ok && strings.HasPrefix(calleeName(sc), "google.golang.org/grpc/status.") {
-							if k, _ := constInt(sc.Call.Args[0]); k == 13 {
-								hasInt = true
+	forEachReturnValue(inv, 0, func(v0 ssa.Value, at ssa.Instruction) {
+		// the tail (second receive and verdict) may live in a helper whose result Invoke returns: one case per helper return
+		for _, vc := range valueCases(v0, 0) {
+			v := vc.Val
+			if !isNilConst(v) || !dominates(r2, at) {
+				continue
+			}
+			nNil++
+			g := false
+			for _, f := range append(boolFactsAt(at), boolFactsOf(vc.Facts)...) {
+				if call, ok := f.V.(*ssa.Call); ok && calleeName(call) == "errors.Is" && f.True && desc(call.Call.Args[1]) == "*global:EOF" {
+					// X
+					x := call.Call.Args[0]
+					if phi, ok := x.(*ssa.Phi); ok {
+						hasR2, hasInt := false, false
+						for _, e := range phi.Edges {
+							if e == ssa.Value(r2) {
+								hasR2 = true
+							}
+							if sc, ok := e.(*ssa.Call); ok && strings.HasPrefix(calleeName(sc), "google.golang.org/grpc/status.") {
+								if k, _ := constInt(sc.Call.Args[0]); k == 13 {
+									hasInt = true
+								}
 							}
 						}
+						g = hasR2 && hasInt
 					}
-					g = hasR2 && hasInt
 				}
 			}
-		}
-		if !g {
-			okNil = false
+			if !g {
+				okNil = false
+			}
 		}
 	})
 	c.check(okNil && nNil >= 1, rule, w.Short(inv)+": success only when the second receive hit end-of-stream", w.At(r2), "return nil only under errors.Is(extraErr, io.EOF), extraErr = Internal when a second response arrived", "Invoke can return nil although the second receive did not end with io.EOF (or a second response is not turned into an error): a unary caller gets success when the peer sent several responses or a failure status after the first")
